@@ -19,7 +19,7 @@ AllServed == \A c \in 1..NCallers : Got(c)
 
 Case ==
     [cfg   |-> cfg,
-     calls |-> [c \in 1..NCallers |-> [at |-> callers[c].t + (c - 1), q |-> 1]],
+     calls |-> [c \in 1..NCallers |-> [at |-> callers[c].t + (c - 1), q |-> callers[c].q, rd |-> callers[c].rd, cd |-> callers[c].cd]],
      exp   |-> [callers |-> [c \in 1..NCallers |-> IF c = 1 THEN ExpectFirst(cfg) ELSE ExpectLater(cfg)]],
      model |-> [c \in 1..NCallers |-> [class |-> callers[c].d.class, from |-> callers[c].d.from,
                                        took |-> callers[c].d.t - callers[c].t, joined |-> callers[c].lk # c]]]
